@@ -56,10 +56,14 @@ def normalise_program(trees: Dict[str, ast.Module], pkgs: Set[str]) -> None:
     for t in trees.values():
         _iso(t)
     ho.fold_private_constants(trees, pkgs)
+    for t in trees.values():
+        _iso(t)  # isinstance(x, _TYPES) with a private tuple of classes is the `or` of the single tests now
     for m, t in trees.items():
         if not (".tests" in m or m.endswith("tests")):
             ho.format_calls(t)
             ho.function_values(t)
+            ho.fuse_genexps(t)
+            ho.bool_indexed_pairs(t)
             ho.genexp_for_loops(t)
             ho.for_break_else(t)
             ho.first_match_loops(t)
@@ -109,6 +113,8 @@ def normalise_program(trees: Dict[str, ast.Module], pkgs: Set[str]) -> None:
             ho.double_negation(t)
             ho.split_tuple_assign(t)
             ho.iterator_aliases(t)
+            ho.rename_apart(t)
+            ho.copy_propagation(t)
             ho.tail_return_to_break(t)
             ho.hoist_next_in_tests(t)
             ho.loop_target_unpack(t)
@@ -2774,10 +2780,24 @@ def _drop_dead_helpers(trees: Dict[str, ast.Module]) -> None:
             elif isinstance(n, ast.Constant) and isinstance(n.value, str) and n.value.isidentifier():
                 refs[n.value] = refs.get(n.value, 0) + 1
 
+    name_refs: Dict[str, int] = {}
+    for t in trees.values():
+        for n in ast.walk(t):
+            if isinstance(n, ast.Name):
+                name_refs[n.id] = name_refs.get(n.id, 0) + 1
+            elif isinstance(n, ast.Constant) and isinstance(n.value, str) and n.value.isidentifier():
+                name_refs[n.value] = name_refs.get(n.value, 0) + 1
+            elif isinstance(n, ast.alias):
+                name_refs[n.name] = name_refs.get(n.name, 0) + 1
+
     def prune(body: List[ast.stmt], nested: bool) -> None:
         for st in list(body):
             if isinstance(st, ast.FunctionDef) and _eligible(st, nested=nested) and refs.get(st.name, 0) == 0:
                 body.remove(st)
+                continue
+            if isinstance(st, ast.ClassDef) and not nested and st.name.startswith("_") and not st.name.startswith("__") and st.name not in anchors() and name_refs.get(st.name, 0) == 0 \
+                    and not st.decorator_list:
+                body.remove(st)  # a private class nobody names any more (its objects were dissolved into closures)
                 continue
             if isinstance(st, ast.ClassDef):
                 prune(st.body, False)
@@ -2787,7 +2807,10 @@ def _drop_dead_helpers(trees: Dict[str, ast.Module]) -> None:
                         sub = getattr(holder, fld, None)
                         if isinstance(sub, list) and sub and isinstance(sub[0], ast.stmt) and any(isinstance(x, ast.FunctionDef) for x in sub):
                             for x in list(sub):
-                                if isinstance(x, ast.FunctionDef) and _eligible(x, nested=True) and refs.get(x.name, 0) == 0:
+                                # a nested function can only be reached through its name in the enclosing function
+                                local_refs = sum(1 for n_ in ast.walk(st) if isinstance(n_, ast.Name) and n_.id == x.name and isinstance(n_.ctx, ast.Load)) if isinstance(x, ast.FunctionDef) else 1
+                                uses_locals = isinstance(x, ast.FunctionDef) and any(isinstance(n_, ast.Call) and isinstance(n_.func, ast.Name) and n_.func.id in ("locals", "vars", "eval", "exec") for n_ in ast.walk(st))
+                                if isinstance(x, ast.FunctionDef) and x.name not in anchors() and not x.decorator_list and local_refs == 0 and not uses_locals:
                                     sub.remove(x)
                             if not sub:
                                 sub.append(ast.copy_location(ast.Pass(), holder))
